@@ -7,7 +7,7 @@ import scipy.sparse as sp
 from .. import coqrun as cq
 from .. import gen
 
-TECHNIQUE = 'Coq proofs (PMIS kernel, RS independence and RS domination unbounded; second pass / CLJP all patterns <= 3/4 nodes) + exhaustive kernel/model correspondence incl. lambda buckets'
+TECHNIQUE = 'Coq proofs (PMIS kernel, RS independence, RS domination and two-pass RS cover unbounded; CLJP all patterns <= 3/4 nodes) + exhaustive kernel/model correspondence incl. lambda buckets'
 LEVEL_TEXT = ('Kernel-checked theorems (Props/C13.v).  Unbounded: the PMIS kernel (parallel maximal independent set with codes '
               '-1/1/0) on every symmetric graph of any size and any weights returns only splittings whose C set is independent '
               'and dominating, and with integer weights (ties by index) it always returns; first-pass Ruge-Stuben on every pattern '
@@ -15,7 +15,8 @@ LEVEL_TEXT = ('Kernel-checked theorems (Props/C13.v).  Unbounded: the PMIS kerne
               'impose, and on a symmetric pattern (nonnegative influence) that coarse set is dominating: every fine point is '
               'without off-diagonal strong connection or strongly connected to a coarse point (the proof carries the invariant '
               'of the lambda buckets -- a sorted, gap-free partition of the unvisited positions -- through the counting sort, '
-              'incr_lambda and the removal of the top node).  Bounded, decided by vm_compute over '
+              'incr_lambda and the removal of the top node); two-pass Ruge-Stuben on EVERY pattern (symmetric or not) returns 0/1 '
+              'flags in which every fine point with a nonempty strength row strongly depends on a coarse point.  Bounded, decided by vm_compute over '
               'complete enumerations with the bound in each statement: on every directed pattern with <= 3 vertices and every symmetric graph with <= 4 the '
               'model of rs_cf_splitting (with its lambda buckets) returns 0/1 flags and marks a C point whenever there '
               'is an edge; on symmetric patterns its C set is independent and dominating; two-pass Ruge-Stuben and '
@@ -24,7 +25,7 @@ LEVEL_TEXT = ('Kernel-checked theorems (Props/C13.v).  Unbounded: the PMIS kerne
               'working-tree kernels on all 5 189 directed patterns on <= 4 vertices and symmetric graphs on 5 (both RS '
               'passes, CLJP with the glibc rand() weights and with colouring weights in binary64); validity oracles '
               'decide the property on the public RS/PMIS/PMISc/CLJP/CLJPc routines, with reproducibility per seed.')
-LEVEL_NOTE = ('RS second-pass cover and CLJP theorems are bounded; RS independence, RS domination and the PMIS kernel have unbounded theorems.  glibc rand() is replayed by '
+LEVEL_NOTE = ('CLJP theorems are bounded; RS independence, RS domination, the two-pass RS cover and the PMIS kernel have unbounded theorems.  glibc rand() is replayed by '
               'the harness through ctypes (trusted).  PMIS/PMISc preprocessing (SciPy S+S^T, NumPy RNG) is not modelled: '
               'oracle only.')
 RULE = ('every directed pattern on 1..4 vertices and every symmetric graph on 5 (thorough: plus symmetric graphs on 6): '
@@ -35,7 +36,7 @@ RULE = ('every directed pattern on 1..4 vertices and every symmetric graph on 5 
 RULE += (' '
          'Also 400 (6000 thorough) random directed patterns on 5-7 vertices; strength matrices handed to the public routines carry antisymmetric (S_ij = -S_ji) or random nonzero values.')
 TRUSTED = ['glibc srand/rand via ctypes', 'SciPy transpose / sparse addition in split._preprocess', 'NumPy global RNG']
-PARTIAL = ['RS second pass and CLJP: theorems bounded (<= 3 vertices directed, <= 4 symmetric); PMIS kernel and RS first pass: unbounded',
+PARTIAL = ['CLJP: theorems bounded (<= 3 vertices directed, <= 4 symmetric); PMIS kernel and both RS passes: unbounded',
            'PMIS/PMISc Python preprocessing: oracle only']
 HEADER = ('From Coq Require Import ZArith List PrimFloat.\nImport ListNotations.\n'
           'Require Import PV.Base.Ops PV.Model.GraphRun PV.Model.GraphRun2.\nOpen Scope Z_scope.\n')
